@@ -215,6 +215,11 @@ def eam_api_objects(model, wrap=None):
           if ent[0] == s and ent[1] == b:
             node = ent[2]
         dd[b] = mk(node, ("dens", s, b))
+      if model.get("api_extra_density_keys"):
+        # the dictionaries may describe more neighbours than are tabulated (objects of a larger model reused)
+        zf = lambda r: 7.0
+        dd["Zz"] = zf
+        dd["Q9"] = zf
       df = dd
     else:
       node = spec.ZERO
